@@ -50,6 +50,10 @@ def calls(t, sd):
 
     add("noargs", [])
     add("noargs_noextra", [], extra=False)
+    # method names outside ASCII: the selector is the hash of the UTF-8 signature text
+    add("gr\u00f6\u00dfe", [A(U64)])
+    add("set_\u03c0", [R(STR, 3), RF("asset")])
+    add("\u8ee2\u9001", [])
     types = [U64, U8, BOOL, STR, DB, ADDR, G.tup(U64, STR), ("sarray", G.U16, 2), ("darray", U8), G.tup(BOOL, BOOL, U8)]
     for i, ty in enumerate(types):
         add("abi%d" % i, [A(ty)])
@@ -86,6 +90,9 @@ def calls(t, sd):
     add("wrong_dbytes_to_string", [W(STR, DB)])
     add("wrong_txn_type", [TX("pay", "axfer")])
     add("wrong_second", [A(U64), W(BOOL, U8)])
+    # widths PyTeal has no type for: nothing PyTeal can build fits them
+    for bits, given in ((24, G.U32), (40, U64), (48, U64), (56, U64), (24, U64), (128, U64)):
+        add("wrong_uint%d_from_%d" % (bits, given[1]), [W(("uint", bits), given)])
     if t != "quick":
         for j in range(400):
             n = rng.choice([1, 2, 3, 4, 6])
